@@ -195,6 +195,17 @@ def families(prop, tier):
                     cases.append(dict(backend='dict', gate_store=False, nmsgs=1, nrcpt=nr, backoff=bo,
                                       real_relay=dict(kind='pipe', behaviour={i + 1: b for i, b in enumerate(beh)}, timeout=7)))
         fams.append(dict(name='realrelay-pipe', mode='real', cases=cases))
+        cases = []
+        hacts = ['ok200', 'ok200body', 'ok204plain', 'hdr550', 'hdr450', 'hdr450body', 'plain500', 'plain404', 'redirect302', 'notmodified304',
+                 'close', 'garbage']
+        for i1, a1 in enumerate(hacts):
+            for i2, a2 in enumerate(hacts if not q else hacts[::3]):
+                for bo in ([0, None], [None]):
+                    if len(bo) == 1 and i2:
+                        continue
+                    cases.append(dict(backend='dict', gate_store=False, nmsgs=1 + (i1 + i2) % 2, nrcpt=1 + i1 % 2, backoff=bo,
+                                      real_relay=dict(kind='http', actions=[a1, a2, 'ok200'], idle=5 if (i1 + i2) % 3 == 0 else None)))
+        fams.append(dict(name='realrelay-http', mode='real', cases=cases))
     # a bounce that cannot be delivered either: its own failure / exhaustion must not produce another bounce
     if prop in ('C13',):
         for bo in ([None], [0, None]):
